@@ -188,3 +188,55 @@ def split_and(src: str) -> str:
 
 GENERATED["gen:dedent-else-all"] = (dedent_else, "every `else:` after an arm that ends in return/raise/continue/break removed (its statements follow the if)")
 GENERATED["gen:split-and-all"] = (split_and, "every else-less `if a and b:` split into nested ifs")
+
+
+def hoist_if_test(src: str) -> str:
+    """`if <compound test>: ...` -> `_t1 = <test>` ; `if _t1: ...` for plain ifs (not elif arms, whose test must stay behind the earlier arms)
+    inside functions.  Tests containing a walrus or an await are left alone."""
+    tree = ast.parse(src)
+    counter = [0]
+    for fn in [n for n in ast.walk(tree) if isinstance(n, (ast.FunctionDef, ast.AsyncFunctionDef))]:
+        for parent in ast.walk(fn):
+            if isinstance(parent, (ast.FunctionDef, ast.AsyncFunctionDef, ast.ClassDef)) and parent is not fn:
+                continue
+            for field in ("body", "orelse", "finalbody"):
+                blk = getattr(parent, field, None)
+                if not isinstance(blk, list):
+                    continue
+                if field == "orelse" and isinstance(parent, ast.If) and len(blk) == 1 and isinstance(blk[0], ast.If):
+                    continue  # elif arm
+                out = []
+                for st in blk:
+                    if isinstance(st, ast.If) and isinstance(st.test, (ast.Compare, ast.BoolOp, ast.Call, ast.UnaryOp)) and not any(isinstance(x, (ast.NamedExpr, ast.Await, ast.Yield, ast.YieldFrom)) for x in ast.walk(st.test)):
+                        counter[0] += 1
+                        nm = f"_t{counter[0]}"
+                        out.append(ast.copy_location(ast.Assign(targets=[ast.Name(id=nm, ctx=ast.Store())], value=st.test, lineno=st.lineno), st))
+                        st.test = ast.copy_location(ast.Name(id=nm, ctx=ast.Load()), st.test)
+                    out.append(st)
+                setattr(parent, field, out)
+    return ast.unparse(ast.fix_missing_locations(tree)) + "\n"
+
+
+def return_var(src: str) -> str:
+    """`return <expr>` -> `_r = <expr>` ; `return _r` for non-trivial expressions without await/walrus."""
+    tree = ast.parse(src)
+    counter = [0]
+    for parent in ast.walk(tree):
+        for field in ("body", "orelse", "finalbody"):
+            blk = getattr(parent, field, None)
+            if not isinstance(blk, list):
+                continue
+            out = []
+            for st in blk:
+                if isinstance(st, ast.Return) and st.value is not None and not isinstance(st.value, (ast.Name, ast.Constant)) and not any(isinstance(x, (ast.NamedExpr, ast.Await, ast.Yield, ast.YieldFrom)) for x in ast.walk(st.value)):
+                    counter[0] += 1
+                    nm = f"_r{counter[0]}"
+                    out.append(ast.copy_location(ast.Assign(targets=[ast.Name(id=nm, ctx=ast.Store())], value=st.value, lineno=st.lineno), st))
+                    st.value = ast.copy_location(ast.Name(id=nm, ctx=ast.Load()), st.value)
+                out.append(st)
+            setattr(parent, field, out)
+    return ast.unparse(ast.fix_missing_locations(tree)) + "\n"
+
+
+GENERATED["gen:hoist-if-test-all"] = (hoist_if_test, "the test of every plain `if` hoisted into a fresh local in front of it")
+GENERATED["gen:return-var-all"] = (return_var, "every `return <expr>` written as `_r = <expr>; return _r`")
